@@ -859,6 +859,8 @@ def run(R):
              "(dangling %, %FF, overlong/surrogate sequences, raw high bytes); non-trivial = input needs decoding ('%', '+', non-ASCII) or ends in a documented error; distinct by full input",
     )
     json_phase(R, 4000 if R.tier == "quick" else 150000)
+    if R.tier == "thorough" and not R.replay and not pxvlib.leanchecker(R, ["Pxv.Thm.C15"]):
+        R.violation("leanchecker rejects Pxv.Thm.C15", {"theorem_modules": ["Pxv.Thm.C15"]}, no_failing_input=True)
 
 
 def json_phase(R, n):
